@@ -1279,7 +1279,8 @@ distinct and all checked rules hold. -/
 theorem schemaNew_spec {doc : Doc} (h : NoKnownSchemaTrigger doc = true) :
     ∃ q qd, doc.schemaBlocks = [q] ∧ findType doc.types q = some qd ∧ qd.isInterface = false ∧
       isBuiltin q = false ∧
-      ((∃ s, Schema.new doc = .ok (.ok s) ∧ Distinct doc.types ∧ CheckedRules doc.types qd) ∨
+      ((∃ s, Schema.new doc = .ok (.ok s) ∧ s.vertexTypes = doc.types ∧ s.queryType = qd ∧
+          Distinct doc.types ∧ CheckedRules doc.types qd) ∨
        (∃ es, Schema.new doc = .ok (.error es) ∧ ¬ (Distinct doc.types ∧ CheckedRules doc.types qd))) := by
   obtain ⟨⟨q, qd, hblocks, hq, hqi⟩, hg, hc⟩ := guard_unpack h
   have hqd := findType_some hq
@@ -1302,7 +1303,7 @@ theorem schemaNew_spec {doc : Doc} (h : NoKnownSchemaTrigger doc = true) :
       have := hsome rfl
       obtain ⟨o, ho⟩ := Option.isSome_iff_exists.mp this
       simp only [ho, List.isEmpty_nil, if_true]
-      exact .inl ⟨_, rfl, hd, hiff.mp rfl⟩
+      exact .inl ⟨_, rfl, rfl, rfl, hd, hiff.mp rfl⟩
     | cons e es =>
       simp only [List.isEmpty_cons, Bool.false_eq_true, if_false]
       exact .inr ⟨_, rfl, fun h' => by simpa using hiff.mpr h'.2⟩
